@@ -292,6 +292,9 @@ static void probe(void *vs)
         const char *sh = !*nd ? "empty needle" : (p ? "needle present" : "needle absent");
         if (g1 != ex) FAIL(CLS "_find_from_ptr", "model:return", sh, "find_from_ptr(\"%s\")=%ld expected %ld", nd, g1, ex);
         if (g2 != ex) FAIL(CLS "_find", "model:return", sh, "find(\"%s\")=%ld expected %ld", nd, g2, ex);
+        { char *h2 = mc_heapstr(nd); T os = F(new_from_buff)((spif_charptr_t) h2, (IDX) (strlen(nd) + 40));        /* the same needle in an object with spare capacity */
+          long g3 = (long) F(find)(o, os); F(del)(os); free(h2);
+          if (g3 != ex) FAIL(CLS "_find", "model:return", sh, "find(\"%s\" held with spare capacity)=%ld expected %ld", nd, g3, ex); }
     }
     /* substr / substr_to_ptr over window(n)^2 */
     for (int i = -w; i <= w; i++) for (int c = -w; c <= w; c++) {
